@@ -1244,3 +1244,55 @@ Proof.
   exists ex_session, (true, mkKeys [1] [2] [3]). split; [reflexivity|]. split; [|reflexivity].
   vm_compute. discriminate.
 Qed.
+
+(* ---- part 8: the server's proxy list across a migration; Scripts that end in an error ---------- *)
+(* absorbing the MvMigrate result (kind syncMigrate carries no list) keeps the server's proxy list, which
+   therefore still names the proxy the migrated client re-created from the hand-off *)
+Theorem server_proxies_survive_migration before :
+  server_proxy_view infoSyncMigrate before (carried_proxies infoSyncMigrate ex_session) = before /\
+  (forall k got, writes_proxy_list k = false -> server_proxy_view k before got = before) /\
+  (forall k got, writes_proxy_list k = true -> server_proxy_view k before got = got).
+Proof.
+  split; [reflexivity|]. split; intros k got H; unfold server_proxy_view; rewrite H; reflexivity.
+Qed.
+Theorem migrated_proxy_matches_server_view old :
+  map strip_profile (proxies_of true old) = proxies_of false old.
+Proof.
+  unfold proxies_of. destruct (s_proxy old) as [p|]; [|reflexivity]. destruct (p_active p); reflexivity.
+Qed.
+
+(* the kind a Script resynchronises is decided by its successful synchronising entries alone: entries that
+   fail (and, with stop-on-error, everything after the first failure) never take it back *)
+Lemma run_script_keeps_z stop es : forall c z, 0 < z -> 0 < snd (run_script stop c z es).
+Proof.
+  induction es as [|e es IH]; intros c z Hz; cbn [run_script]; [exact Hz|].
+  destruct (run_entry c e) as [[c1 k]|].
+  - apply IH. destruct (0 <? k) eqn:E; lia.
+  - destruct stop; [exact Hz | apply IH; exact Hz].
+Qed.
+(* a prefix that runs through: never the case that stop-on-error cut the Script before its end *)
+Fixpoint all_ok (c : session) (a : list entry) : bool :=
+  match a with
+  | [] => true
+  | x :: a' => match run_entry c x with Some (c', _) => all_ok c' a' | None => false end
+  end.
+Lemma run_script_app stop a : forall c z r, (stop = false \/ all_ok c a = true) ->
+  run_script stop c z (a ++ r) = run_script stop (fst (run_script stop c z a)) (snd (run_script stop c z a)) r.
+Proof.
+  induction a as [|x a IH]; intros c z r H; cbn [app run_script all_ok fst snd] in *; [reflexivity|].
+  destruct (run_entry c x) as [[c2 k2]|].
+  - apply IH. exact H.
+  - destruct stop.
+    + destruct H as [H|H]; discriminate.
+    + apply IH. left. reflexivity.
+Qed.
+(* a synchronising entry e that ran and succeeded is reported, whatever follows it: failing entries, a
+   stop-on-error end of the Script (its result is then an error), more entries *)
+Theorem script_resync_despite_error stop c a e b c1 k :
+  (stop = false \/ all_ok c a = true) ->
+  run_entry (fst (run_script stop c 0 a)) e = Some (c1, k) -> 0 < k ->
+  0 < snd (run_script stop c 0 (a ++ e :: b)).
+Proof.
+  intros Ha He Hk. rewrite run_script_app by exact Ha. cbn [run_script]. rewrite He.
+  apply run_script_keeps_z. replace (0 <? k) with true by lia. exact Hk.
+Qed.
